@@ -768,3 +768,19 @@ def bool_states_from(body, start, init=None, max_iter=4000):
             vals = {transfer(rb, dict(f)).get(0, UNK) for f in IN[rb]}
             out[rb] = True if vals == {True} else (False if vals == {False} else UNK)
     return out
+
+
+def closure_capture(prog, closure_id, field_idx):
+    """(parent body, operand) of capture number `field_idx` of closure `closure_id`: the operand given to
+    the closure aggregate in the enclosing body; None when it cannot be found"""
+    parent = closure_id.rsplit("::{closure", 1)[0]
+    pb = prog.bodies.get(parent)
+    if pb is None:
+        return None
+    for bi in pb.normal_blocks():
+        for st in pb.stmts(bi):
+            if st.get("r") == "agg" and st.get("ak") == "closure" and st.get("def") == closure_id:
+                ops = st.get("o", [])
+                if field_idx < len(ops):
+                    return pb, ops[field_idx]
+    return None
